@@ -351,6 +351,9 @@ func registerExternals(e *Engine) {
 	x["runtime.Caller"] = func(p *Path, th *Thread, fr *frame, a []Value) Value {
 		return Tuple{ConstT(64, 0), "verif.go", mkInt(1), TrueT}
 	}
+	for _, n := range []string{"log.Printf", "log.Println", "log.Print"} {
+		x[n] = func(p *Path, th *Thread, fr *frame, a []Value) Value { return nil }
+	}
 	x["runtime.Callers"] = func(p *Path, th *Thread, fr *frame, a []Value) Value { return mkInt(0) }
 	x["github.com/pkg/errors.callers"] = func(p *Path, th *Thread, fr *frame, a []Value) Value { return (*Value)(nil) }
 	x["runtime/debug.Stack"] = func(p *Path, th *Thread, fr *frame, a []Value) Value { return []Value{} }
